@@ -157,6 +157,90 @@ func c01cProbes(ctx *vkit.Ctx) {
 		}
 		return ""
 	})
+	// D68: an index is created again while (or right after) an index of the same name is dropped.
+	ctx.Probe("D68", func(cs *vkit.Case) string {
+		for _, variant := range []string{"removal_delayed", "create_during_drop"} {
+			msg := func() string {
+				defer verifhook.Reset()
+				dir := cs.SubDir("data-" + variant)
+				e, err := engine.Open(vexec.Options(dir))
+				if err != nil {
+					return fmt.Sprintf("open: %v", err)
+				}
+				defer func() { e.Close() }()
+				e.VCreate("ic", distance.Euclidean, 4, 8, distance.Float32, "", nil, nil, nil)
+				e.VAdd("ic", "old", []float32{1, 2, 3}, nil)
+				recreate := func() error {
+					if err := e.VCreate("ic", distance.Euclidean, 4, 8, distance.Float32, "", nil, nil, nil); err != nil {
+						return fmt.Errorf("VCreate(ic) after the drop: %w", err)
+					}
+					return e.VAdd("ic", "new", []float32{4, 5, 6}, map[string]any{"cat": "x"})
+				}
+				if variant == "removal_delayed" {
+					// the goroutine that removes the arena directory is slow to start
+					verifhook.Set("op.VDeleteIndex.remove_start", func(string, any) { time.Sleep(30 * time.Millisecond) })
+					cs.Op("VDeleteIndex(ic) with a slow removal goroutine, then VCreate(ic) + VAdd(ic,new) at once")
+					if err := e.VDeleteIndex("ic"); err != nil {
+						return fmt.Sprintf("VDeleteIndex: %v", err)
+					}
+					if err := recreate(); err != nil {
+						return err.Error()
+					}
+					time.Sleep(40 * time.Millisecond)
+				} else {
+					gate := make(chan struct{})
+					parked := make(chan struct{})
+					var once sync.Once
+					verifhook.Set("op.VDeleteIndex.applied", func(string, any) {
+						once.Do(func() { close(parked); <-gate })
+					})
+					dropDone := make(chan error, 1)
+					go func() { dropDone <- e.VDeleteIndex("ic") }()
+					<-parked
+					cs.Op("VDeleteIndex(ic) parked after the in-memory removal; VCreate(ic) + VAdd(ic,new) issued by another client")
+					crDone := make(chan error, 1)
+					go func() { crDone <- recreate() }()
+					var crErr error
+					returned := false
+					select {
+					case crErr = <-crDone:
+						returned = true
+					case <-time.After(300 * time.Millisecond): // it waits for the drop: fine
+					}
+					close(gate)
+					if err := <-dropDone; err != nil {
+						return fmt.Sprintf("VDeleteIndex: %v", err)
+					}
+					if !returned {
+						crErr = <-crDone
+					}
+					if crErr != nil {
+						return fmt.Sprintf("creation racing the drop failed: %v", crErr)
+					}
+				}
+				if err := e.SaveSnapshot(); err != nil {
+					return fmt.Sprintf("SaveSnapshot: %v", err)
+				}
+				u := vexec.Universe{Indexes: []string{"ic"}, IDs: []string{"old", "new"}}
+				e2, msg := c01cRestartSame(e, dir, u)
+				if e2 != nil {
+					e = e2
+				}
+				if msg != "" {
+					return fmt.Sprintf("%s: drop of ic, re-creation, add, snapshot, restart: %s", variant, msg)
+				}
+				d, err := e.VGet("ic", "new")
+				if err != nil || len(d.Vector) != 3 || d.Vector[0] != 4 {
+					return fmt.Sprintf("%s: after the restart VGet(ic,new) = %v, %v; stored [4 5 6]", variant, d.Vector, err)
+				}
+				return ""
+			}()
+			if msg != "" {
+				return msg
+			}
+		}
+		return ""
+	})
 }
 
 // C01 (concurrent histories) — "whatever sequence of writes, deletes, re-adds, index drops,
